@@ -536,7 +536,7 @@ def _pop_before1(ex, x):
   lemmas(x, alive)
   n = L.len
   j0 = x.path.fresh_const('ind_j', sym.IntS)
-  q = 'selector_map.py::SelectorMap.pop/lemma/prefix_paths_are_ancestors'
+  q = x.path.qual + '/lemma/prefix_paths_are_ancestors'
   P = lambda j: anc(rp(Lb, j), rp(Lb, n))
   x.path.assume(rp(Lb, j0 + 1) == snoc(rp(Lb, j0), L.arr[L.len - (j0 + 1)]))
   x.path.oblige(q + '/base', P(n))
@@ -545,7 +545,7 @@ def _pop_before1(ex, x):
                            patterns=[rp(Lb, j_)]))
   # depth(rp(L, j)) == j  (integer induction; used to tell the dicts on the path apart)
   j1 = x.path.fresh_const('ind_j', sym.IntS)
-  q2 = 'selector_map.py::SelectorMap.pop/lemma/depth_of_prefix_paths'
+  q2 = x.path.qual + '/lemma/depth_of_prefix_paths'
   D = lambda j: depth(rp(Lb, j)) == j
   x.path.assume(rp(Lb, j1 + 1) == snoc(rp(Lb, j1), L.arr[L.len - (j1 + 1)]))
   x.path.oblige(q2 + '/base', D(z3.IntVal(0)))
@@ -655,3 +655,126 @@ c.loop(('zip(reversed(selector_components), reversed(nodes))', None),
        [Clause('prune/' + lbl, (lambda i: lambda x, m: _pop_inv2(x, m)[i][1])(ii))
         for ii, lbl in enumerate(POP2_LABELS)],
        havoc=['self._selector_tree'], before=_pop_before2, body_start=_pop_step2)
+
+
+# ==== minimal_selector ============================================================================
+# The walk records in `start` the beginning of the final run of single-entry dicts on the path
+# of the name.  Invariant (no ghost state): if start is set, every dict on the path from depth
+# -start up to the cursor holds exactly one entry, namely the next component of the name.
+# At the end that run makes the subtree below depth -start a single chain whose only terminal
+# is the name itself, which is what "the result resolves back to exactly this name" needs.
+c = _attach_wf('minimal_selector')
+c.local_kinds = {'selector_components': StrList, 'start': KOpt(KInt)}
+c.assume_entry('definition_of_ancestor', lambda x: anc_definition(),
+               'definition of the spec function anc by structural recursion')
+c.assume_entry('definition_of_dotted_suffix', lambda x: dsuffix_definition(),
+               'definition: dsuffix(p, s) iff the path of p is an ancestor-or-equal of the path of s')
+c.assume_entry('definition_of_depth', lambda x: depth_definition(),
+               'definition of the spec function depth by structural recursion')
+c.ensure('tree_untouched', lambda x: z3.And(
+    SelTree.box(x.self_new.fields['_selector_tree']) ==
+    SelTree.box(x.self_old.fields['_selector_tree']), same_map(x.self_new, x.self_old)))
+
+
+def _only(x, Lb, L, j):
+  """The dict at depth j on the path of the name holds exactly one entry: the next component."""
+  alive, term, tval, tnone = T(x.env.self)
+  return z3.And(z3.Not(term[rp(Lb, j)]), sym.forall(
+      [c_], z3.Implies(alive[snoc(rp(Lb, j), c_)], c_ == L.arr[L.len - 1 - j]),
+      patterns=[alive[snoc(rp(Lb, j), c_)]]))
+
+
+def _min_inv_run(x, k):
+  L = _Ls(x)
+  Lb = StrList.box(L)
+  st = x.env.start
+  if isinstance(st, sym.VNone):
+    return z3.BoolVal(True)
+  if not isinstance(st, sym.VOpt):
+    st = sym.VOpt(KOpt(KInt), z3.BoolVal(False), st)
+  k0 = -st.inner.e
+  return z3.Or(st.is_none, z3.And(
+      1 <= k0, k0 <= z3.If(k >= 1, k, 1),
+      sym.forall([j_], z3.Implies(z3.And(k0 <= j_, j_ < k), _only(x, Lb, L, j_)),
+                 patterns=[rp(Lb, j_)])))
+
+
+def _min_before(ex, x):
+  _pop_before1(ex, x)
+  L = _Ls(x)
+  Lb = StrList.box(L)
+  alive, term, tval, tnone = T(x.env.self)
+  # the whole path of a stored name is alive (hint: proved, then assumed)
+  h = sym.forall([j_], z3.Implies(z3.And(0 <= j_, j_ <= L.len), alive[rp(Lb, j_)]),
+                 patterns=[rp(Lb, j_)])
+  x.path.oblige(x.path.qual + '/hint/path_of_a_stored_name_is_alive', h)
+  x.path.assume(h)
+
+
+c.loop(('enumerate(reversed(selector_components))', None),
+       [Clause('cursor_is_at_the_path_of_the_consumed_components', lambda x, k: z3.And(
+           tree.as_node(x.env.node).path == rp(StrList.box(_Ls(x)), k),
+           T(x.env.self)[0][tree.as_node(x.env.node).path])),
+        Clause('dicts_since_start_hold_one_entry_each', _min_inv_run)],
+       before=_min_before, body_start=_pop_step1)
+
+
+def join_split_facts(x, r, X):
+  """Assumed string facts about '.'.join / split('.') (listed in the evidence), instantiated
+  for the list X being joined into r: splitting r gives back the components of X."""
+  R = split_dot(r)
+  x.path.assume(z3.And(R.len == X.len, sym.forall(
+      [j_], z3.Implies(z3.And(0 <= j_, j_ < X.len), R.arr[j_] == X.at(j_).e),
+      patterns=[R.arr[j_]])))
+  return R
+
+
+def _min_at_return(ex, x):
+  """Ghost code at `return '.'.join(selector_components[start:])`."""
+  L = _Ls(x)
+  Lb = StrList.box(L)
+  n = L.len
+  s = x.a.complete_selector.e
+  r = x.result.e
+  if r.eq(s):
+    return                      # `return complete_selector`: nothing to show beyond dom[s]
+  st = x.env.start
+  alive, term, tval, tnone = T(x.env.self)
+  q = x.path.qual
+  if not x.path.decide(st.is_none):
+    k0 = -st.inner.e
+    X = x.env.selector_components.suffix(st.inner.e)
+    R = join_split_facts(x, r, X)
+    Rb = StrList.box(R)
+    # rp over the components of r coincides with rp over the last k0 components of the name
+    j0 = x.path.fresh_const('ind_j', sym.IntS)
+    x.path.assume(rp(Rb, z3.IntVal(0)) == nil)
+    x.path.assume(rp(Rb, j0 + 1) == snoc(rp(Rb, j0), R.arr[R.len - (j0 + 1)]))
+    x.path.assume(rp(Lb, j0 + 1) == snoc(rp(Lb, j0), L.arr[L.len - (j0 + 1)]))
+    P = lambda j: rp(Rb, j) == rp(Lb, j)
+    x.path.oblige(q + '/lemma/path_of_the_result/base', P(z3.IntVal(0)))
+    x.path.oblige(q + '/lemma/path_of_the_result/step',
+                  z3.Implies(z3.And(0 <= j0, j0 < k0, P(j0)), P(j0 + 1)))
+    x.path.assume(z3.Implies(z3.And(0 <= k0, k0 <= n), P(k0)))
+    # every stored name below depth k0 is below every later dict of the path (the chain)
+    sg0 = x.path.fresh_const('ind_sg', PathS)
+    j1 = x.path.fresh_const('ind_j', sym.IntS)
+    x.path.assume(rp(Lb, j1 + 1) == snoc(rp(Lb, j1), L.arr[L.len - (j1 + 1)]))
+    x.path.assume(expand_children(rp(Lb, j1)))
+    H = z3.And(term[sg0], anc(rp(Lb, k0), sg0))
+    Q = lambda j: z3.Implies(H, anc(rp(Lb, j), sg0))
+    x.path.oblige(q + '/lemma/single_chain/base', Q(k0))
+    x.path.oblige(q + '/lemma/single_chain/step',
+                  z3.Implies(z3.And(k0 <= j1, j1 < n, Q(j1)), Q(j1 + 1)))
+    x.path.assume(sym.forall([sg_], z3.Implies(z3.And(term[sg_], anc(rp(Lb, k0), sg_)),
+                                               anc(rp(Lb, n), sg_)),
+                             patterns=[[term[sg_], anc(rp(Lb, k0), sg_)]]))
+    x.path.assume(expand_children(rp(Lb, n)))
+  else:
+    # start is None: the whole name is returned
+    x.path.assume(world.str_join(sym.str_lit('.'), L) == s)
+
+
+c.at_return = _min_at_return
+c.assumptions.append("string facts: '.'.join(s.split('.')) == s, and splitting the join of a "
+                     'suffix of the components gives those components back')
